@@ -349,8 +349,21 @@ impl Prop for C13 {
                     // direct differential of the two routines
                     out.evals += 1;
                     let first_len = word.chars().next().unwrap().len_utf8();
-                    let s = pasfmt_core::defaults::lexer::verif_identifier_end(&input, align + first_len, false);
-                    let v = pasfmt_core::defaults::lexer::verif_identifier_end(&input, align + first_len, true);
+                    // (a panic inside either routine is an observation, not a harness failure)
+                    let direct = std::panic::catch_unwind(std::panic::AssertUnwindSafe(|| {
+                        (
+                            pasfmt_core::defaults::lexer::verif_identifier_end(&input, align + first_len, false),
+                            pasfmt_core::defaults::lexer::verif_identifier_end(&input, align + first_len, true),
+                        )
+                    }));
+                    let (s, v) = match direct {
+                        Ok(p) => p,
+                        Err(_) => {
+                            let p = crate::exec::take_panic();
+                            out.violate("C13", "identifier-routine-panics", format!("identifier scan of {:?} from offset {} panicked: {} at {}", short(&input, 80), align + first_len, short(&p.message, 160), p.location), &input, None);
+                            (None, None)
+                        }
+                    };
                     match (s, v) {
                         (Some(s), Some(v)) => {
                             out.count("routine_pairs_compared");
